@@ -279,7 +279,7 @@ impl Check for C01 {
 		"F3 history".into()
 	}
 	fn rule(&self) -> String {
-		"F1: {static, streaming} x length {0,1,2,5} x slice {none, empty, inner, inverted, beyond the data} x loop {none, whole, empty, inverted, beyond, end==len} x sound rate x start position {0,1,len-1,len,len+3} x reverse x rate {1,-1,0,0.5,3} x 18 handle commands with boundary arguments; FX: 14 extreme finite values (1e9, 1e300, +-1e12 s, +-1e30 dB, 1e15 samples) x {static, streaming}, one per case; F2: 9 effect families, each parameter at documented min / max / default / 0 / just outside, x sample rate {8000, 44100, 192000} x 5 input signals x callbacks {1, ibs, 2*ibs+1}, then the device rate changed to each of the other two rates and the same callbacks again; F3: all API histories to depth 4 (5) over 16 letters with all capacities 1, and with all capacities 0; F4: every depth-3 history with 1..8 channels (mono must be the mean of the stereo rendering, extra channels silent); F6: every setter of every built-in effect handle, value tweened between every ordered pair of a 3..4-point lattice (increasing and decreasing) with tweens of 0 / 1.5 / 6 internal buffers; F8: E2 long race game(3 creates of resources that are removable at once) || audio(4 callbacks) for sounds and sub-tracks at capacity 1; F7: 8 public track-creation paths x 9 effect families x {parent adopted, parent created in the same interval} with a sound on the new track, 3 callbacks; F5: the output stage alone: DC frames (l, r) over {0, +-0.5, +-1.5, +-3e38}^2 x volume {0, +20, +1000 dB} x 1..8 channels. Oracle = the callback monitors. non-trivial = callbacks that produced non-silent audio or ran after at least one command".into()
+		"F1: {static, streaming} x length {0,1,2,5} x slice {none, empty, inner, inverted, beyond the data} x loop {none, whole, empty, inverted, beyond, end==len} x sound rate x start position {0,1,len-1,len,len+3} x reverse x rate {1,-1,0,0.5,3} x 18 handle commands with boundary arguments; FX: 14 extreme finite values (1e9, 1e300, +-1e12 s, +-1e30 dB, 1e15 samples) x {static, streaming}, one per case; F2: 9 effect families, each parameter at documented min / max / default / 0 / just outside, x sample rate {8000, 44100, 192000} x 5 input signals x callbacks {1, ibs, 2*ibs+1}, then the device rate changed to each of the other two rates and the same callbacks again; F3: all API histories to depth 4 (5) over 16 letters with all capacities 1, and with all capacities 0; F4: every depth-3 history with 1..8 channels (mono must be the mean of the stereo rendering, extra channels silent); F6: every setter of every built-in effect handle, value tweened between every ordered pair of a 3..4-point lattice (increasing and decreasing) with tweens of 0 / 1.5 / 6 internal buffers; F8: E2 long race game(3 creates of resources that are removable at once) || audio(4 callbacks) for sounds and sub-tracks at capacity 1; F7: 8 public track-creation paths x 9 effect families x {parent adopted, parent created in the same interval} with a sound on the new track, 3 callbacks; every sequence of <= 3 clock commands {start, pause, stop, set_speed} in one interval on a fresh / running / paused clock; F5: the output stage alone: DC frames (l, r) over {0, +-0.5, +-1.5, +-3e38}^2 x volume {0, +20, +1000 dB} x 1..8 channels. Oracle = the callback monitors. non-trivial = callbacks that produced non-silent audio or ran after at least one command".into()
 	}
 	fn assumptions(&self) -> Vec<String> {
 		vec![
@@ -1229,6 +1229,60 @@ fn f7(ctx: &mut Ctx) {
 					Err(p) => ctx.fail(format!("panic on the caller's thread: {} :: F7 {}", p, F7_PATHS[path]), detail()),
 				}
 				ctx.state(hash64(&("f7", path, k, adopted)));
+			}
+		}
+	}
+	// every sequence of up to 3 clock commands issued in ONE interval, on a fresh / running / paused clock, with a sound
+	// scheduled on it: the callbacks that follow neither panic nor hang
+	let cmds = ["start", "pause", "stop", "set_speed"];
+	let mut seqs: Vec<Vec<usize>> = vec![];
+	for a in 0..4 {
+		seqs.push(vec![a]);
+		for b in 0..4 {
+			seqs.push(vec![a, b]);
+			for c in 0..4 {
+				seqs.push(vec![a, b, c]);
+			}
+		}
+	}
+	for prior in 0..3 {
+		for seq in &seqs {
+			ctx.evals += 1;
+			let detail = || format!("clock ({}), then {:?} in one interval, then callbacks of 1, 4, 3 frames", ["fresh", "started and run for 2 callbacks", "started, run, paused"][prior], seq.iter().map(|c| cmds[*c]).collect::<Vec<_>>());
+			let r = catch(|| {
+				let mut m = rig::manager(SR3, 4, rig::caps(2), MainTrackBuilder::new());
+				let mut buf = vec![0.0f32; 32];
+				let mut clock = m.add_clock(ClockSpeed::TicksPerSecond(1000.0)).expect("clock");
+				let _s = m.play(rig::static_data(SR3, rig::dc_frames(8, 0.25)).loop_region(Region::from(..)).start_time(kira::clock::ClockTime { clock: clock.id(), ticks: 2, fraction: 0.0 }));
+				if prior >= 1 {
+					clock.start();
+					for _ in 0..2 {
+						rig::callback(&mut m, &mut buf, 3, 2);
+					}
+				}
+				if prior == 2 {
+					clock.pause();
+					rig::callback(&mut m, &mut buf, 3, 2);
+				}
+				for c in seq {
+					match c {
+						0 => clock.start(),
+						1 => clock.pause(),
+						2 => clock.stop(),
+						_ => clock.set_speed(ClockSpeed::TicksPerSecond(500.0), tw(0.001)),
+					}
+				}
+				for n in [1usize, 4, 3] {
+					let rep = rig::callback(&mut m, &mut buf, n, 2);
+					if !rep.ok() {
+						rig::report_cb(ctx, &rep, "F7 clock command sequence in one interval", &detail);
+						return;
+					}
+				}
+				ctx.nontrivial_extra += 1;
+			});
+			if let Err(p) = r {
+				ctx.fail(format!("panic on the caller's thread: {} :: F7 clock command sequence", p), detail());
 			}
 		}
 	}
